@@ -109,8 +109,19 @@ def run(ctx):
                   footer="Definition R := Eval vm_compute in pool_failing cases.\nPrint R.\n"
                          "Definition NC := Eval vm_compute in List.length cases.\nPrint NC.\n")
 
+    def refresh_stage(ctx, mult, suffix, off):
+        # a Put started between RefreshServiceDiscovery() and the API's (withheld) answer: which list it used
+        nref = {"quick": 60, "thorough": 1500}[ctx.tier]
+        ctx.stage("c11refresh" + suffix, PKG, "keepclient", FILES + ["C11/zz_verif_c11pool_test.go", "C11/zz_verif_c11refresh_test.go"],
+                  "TestVerifC11Refresh$", nref * mult,
+                  HDR.format(imports="model.KC_discover model.C11_model model.C11_pool") + "Notation case := fcase.\n", seed_offset=off, shard=30,
+                  env={"VERIF_STAGE": "c11refresh" + suffix}, replace=ctx.c11_replace,
+                  footer="Definition R := Eval vm_compute in refresh_failing cases.\nPrint R.\n"
+                         "Definition NC := Eval vm_compute in List.length cases.\nPrint NC.\n")
+
     def stages(ctx, mult, suffix, off):
         pool_stage(ctx, mult, suffix, off)
+        refresh_stage(ctx, mult, suffix, off)
         if ctx.tier == "quick":
             # cases 0..431: every assignment of the 11 outcomes of the quantifier to 1 service x <= 2 rounds (want 1..3,
             # disk/proxy); then random cases
@@ -131,7 +142,9 @@ def run(ctx):
                          "without header, 400, 403, 408, 429, 500, 502, 503, connection error}, random completion schedules; "
                          "distinct by hash of the case term; non-trivial = at least two uploads completed; stage c11pool: 2-6 KeepClients per "
                          "process (ApiInsecure x disk/proxy/mixed lists, re-used after a refresh) asking the shared HTTP client pool in turn, "
-                         "first two clients stratified by which flags differ, shipped or other Default*Timeout values",
+                         "first two clients stratified by which flags differ, shipped or other Default*Timeout values; stage c11refresh: 1-3 "
+                         "services, refreshed list (withheld until the Put has started) with the first-probed service read-only / removed / "
+                         "moved / all or some read-only / replaced / unchanged, want 1-2",
                     assumptions=["the rendezvous order of the services is an input taken from NewRootSorter (property C12)",
                                  "service lists reach the client through LoadKeepServicesFromJSON (the API poller path is driven by the C12 check); uuids within a list are distinct",
                                  "net/http is replaced by a stub that fails a request whose body does not match ContentLength or whose body reader fails",
